@@ -36,7 +36,8 @@ VARIABLES W,       \* input bytes of the run               } fixed during a run;
           q,       \* events emitted and not yet taken by the observer
           done,    \* the run is over: 1 / 0 / 2 (result), -1 while running
           aux      \* [nsid: serial number of the last state object created (vt::S1 / vt::S2 count their instances),
-                   \*  end: logical end of the data (limit_bytes moves it), dep: nesting depth counted by the depth guards]
+                   \*  end: logical end of the data (limit_bytes and rematch move it), dep: nesting depth counted by the depth
+                   \*  guards, rm: number of rematch scopes the run is inside]
 
 mvars == <<fr, cur, ret, exc, q, done, aux>>
 
@@ -46,9 +47,10 @@ D == INSTANCE PegDen WITH Nodes <- Nodes, W <- W
 NoExc == [who |-> 0, at |-> 0, cls |-> 0, m |-> 0, n |-> 0]
 N == Len(W)
 End == aux.end
-Aux0 == [nsid |-> 0, end |-> Len(W), dep |-> 0]
+Aux0 == [nsid |-> 0, end |-> Len(W), dep |-> 0, rm |-> 0]
 \* the depth counter exists in input_with_depth only (Cfg.cls = 1); otherwise the observer logs -1
-Dep == IF Cfg.cls = 1 THEN aux.dep ELSE -1
+\* (the inner input of rematch is a plain memory_input again: rm counts the rematch scopes the run is in)
+Dep == IF Cfg.cls = 1 /\ aux.rm = 0 THEN aux.dep ELSE -1
 \* the control family is a property of the invocation: control< C, R > switches it for a sub-tree
 FullVis(f) == f.cf \in {3, 4}
 HasUnw(f)  == f.cf \in {2, 4}
@@ -87,8 +89,9 @@ IaEvents(pp, beg, end, zero) ==
 \* nsk how: 1 the rule state< S, R >, 2 a state-switching action; re = 1: re-entry of Control< Rule >::match by a
 \* change_action*: the switch is not applied again
 FrameS(n, A, M, af, cf, st, re) == [n |-> n, A |-> A, M |-> M, af |-> af, cf |-> cf, pc |-> "enter", i |-> 0, lp |-> 0, sv |-> -1, mg |-> -1,
-                                    entry |-> -1, s |-> st, ns |-> 0, nsk |-> 0, re |-> re, oe |-> -1, dg |-> 0, nouw |-> 0]
+                                    entry |-> -1, s |-> st, ns |-> 0, nsk |-> 0, re |-> re, oe |-> -1, dg |-> 0, nouw |-> 0, rme |-> -1]
 Frame(n, A, M, af, cf) == FrameS(n, A, M, af, cf, 0, 0)
+\* rme: the end of the data while rematch runs its rules on the inner input (-1 otherwise)
 \* oe: the end of the data saved by limit_bytes' guard (-1 none), dg = 1: holds a depth guard, nouw = 1: the exception in
 \* flight was raised by the limit action outside match< Rule >(): no unwind hook, no guard of this invocation is left
 KidS(f) == IF f.ns > 0 THEN f.ns ELSE f.s
@@ -187,7 +190,10 @@ Body ==
        M == BodyM(f)
    IN
    /\ exc = NoExc /\ done = -1 /\ q = <<>> /\ f.pc \in {"body", "k"}
-   /\ aux' = IF op = "state" /\ f.pc = "body" THEN [aux EXCEPT !.nsid = @ + 1] ELSE aux
+   /\ aux' = IF op = "state" /\ f.pc = "body" THEN [aux EXCEPT !.nsid = @ + 1]
+             ELSE IF op = "rematch" /\ nk > 1 /\ f.pc = "k" /\ f.i = 1 /\ ret = 1 THEN [aux EXCEPT !.end = cur, !.rm = @ + 1]      \* i2( begin of the match, current )
+             ELSE IF op = "rematch" /\ nk > 1 /\ f.pc = "k" /\ f.i > 1 /\ (ret = 0 \/ f.i = nk) THEN [aux EXCEPT !.end = f.rme, !.rm = @ - 1]   \* i2 is gone
+             ELSE aux
    /\ CASE IsAtom(f.n) ->
              LET a == AtomStep(f.n) IN cur' = a[2] /\ BodyDone(f, a[1])
         \* internal/seq.hpp: one rule forwards M; otherwise guard< M >, all sub-rules optional
@@ -337,6 +343,21 @@ Body ==
              ELSE IF ret = 1 THEN CallKid(f, 1, f.A, 1, "k")
              ELSE /\ cur' = IF f.sv >= 0 THEN f.sv ELSE cur
                   /\ BodyDone(f, 0)
+        \* internal/rematch.hpp: required guard; Head optional; then every further rule from the start of what Head matched, on
+        \* an input that ends where Head ended; the outer input stays behind Head's match, or is restored
+        [] op = "rematch" ->
+             IF nk = 1 THEN (IF f.pc = "body" THEN CallKid(f, 1, f.A, M, "k") ELSE cur' = cur /\ BodyDone(f, ret))
+             ELSE IF f.pc = "body" THEN CallKid([f EXCEPT !.sv = cur], 1, f.A, 0, "k")
+             ELSE IF f.i = 1
+                  THEN IF ret = 0 THEN cur' = f.sv /\ BodyDone(f, 0)
+                       ELSE /\ cur' = f.sv
+                            /\ fr' = Append(SetTop([f EXCEPT !.pc = "k", !.i = 2, !.lp = cur, !.rme = End]), FrameS(ks[2], f.A, 0, f.af, f.cf, KidS(f), 0))
+                            /\ ret' = -1 /\ UNCHANGED <<exc, q, done>>
+             ELSE IF ret = 0 THEN cur' = f.sv /\ BodyDone([f EXCEPT !.rme = -1], 0)
+             ELSE IF f.i = nk THEN cur' = f.lp /\ BodyDone([f EXCEPT !.rme = -1], 1)
+             ELSE /\ cur' = f.sv          \* i2.restart( m )
+                  /\ fr' = Append(SetTop([f EXCEPT !.pc = "k", !.i = f.i + 1]), FrameS(ks[f.i + 1], f.A, 0, f.af, f.cf, KidS(f), 0))
+                  /\ ret' = -1 /\ UNCHANGED <<exc, q, done>>
         \* internal/state.hpp: NewState s( in, st... ) or, if it cannot be constructed that way, NewState s; the sub-rule with
         \* s as its only state and M forwarded; s.success( in, st... ) on success; s dies when match() returns
         [] op = "state" ->
@@ -438,7 +459,8 @@ Unwind ==
    IN
    /\ exc # NoExc /\ done = -1 /\ q = <<>>
    /\ aux' = IF nests \/ catches THEN aux
-             ELSE [aux EXCEPT !.end = IF f.oe >= 0 THEN f.oe ELSE @, !.dep = IF f.dg = 1 THEN @ - 1 ELSE @]    \* a limit's guards are undone
+             ELSE [aux EXCEPT !.end = IF f.oe >= 0 THEN f.oe ELSE IF f.rme >= 0 THEN f.rme ELSE @,              \* a limit's guards are undone,
+                              !.dep = IF f.dg = 1 THEN @ - 1 ELSE @, !.rm = IF f.rme >= 0 THEN @ - 1 ELSE @]           \* rematch's inner input is gone
    /\ IF nests
       THEN \* catch( ... ) { Control< Rule >::raise_nested( in.position( m.inputerator() ), st... ); }  -- no hook is called for it
            /\ exc' = [who |-> Nodes[f.n].ikids[1], at |-> f.sv, cls |-> 1, m |-> 0, n |-> 1]
